@@ -8,7 +8,8 @@
     ([all_fixed]: the tree the check runs against; [pinned]: the tree as found).
     Spec (Val/CoerceSpec.v): [conforms], [ref_coerce] (RefCoerce), [ref_request]. *)
 From Coq Require Import List NArith ZArith Bool.
-From ApiFu Require Import Base.Sexp Val.Values Val.CoerceModel Val.CoerceSpec Val.CoerceProofs Val.FloatExact Val.CoerceReasons Val.CoerceRefine Val.CoerceRoutes Val.CoerceSameValue Val.CoerceTotal Val.CoerceComplete.
+From ApiFu Require Import Base.Sexp Val.Values Val.CoerceModel Val.CoerceSpec Val.CoerceProofs Val.FloatExact Val.CoerceReasons Val.CoerceRefine Val.CoerceRoutes Val.CoerceSameValue Val.CoerceTotal Val.CoerceComplete Val.BridgeC04 Val.BridgeC04Proofs.
+From ApiFu Require Vld.Ast Vld.ValidatorModel.
 Import ListNotations.
 
 (** Hypotheses, all true of the real system and checked on every case of the correspondence:
@@ -281,6 +282,41 @@ Theorem C05_served_unless_runtime_reason : forall E dt site argdefs defs args ra
             ref_request E dt argdefs defs args raw = Some m.
 Proof. exact served_unless_runtime_reason. Qed.
 
+(** ** bridge to C04 (the validator model of coq/Vld): "validated" in C05's terms is C04's verdict.
+    [tr_lit], [tr_sty], [tr_env] translate C05's literals (numbers as decimal text), types and type
+    environments into C04's encoding; [c04_accepts E l t a] runs C04's transcription of
+    validateCoercion ([ValidatorModel.coercion repaired id_order]) on the translation.
+
+    FULL STATEMENT:  forall E dt l t a, bridgeable E = true ->
+                       c04_accepts E l t a = validate_coercion E dt l t a
+    ([bridgeable]: no DateTime / LongInt, whose value-dependent coercers C04's kind-level custom
+    scalars cannot express), from which C05's [static_ok] conjuncts on argument values and default
+    values follow from C04's rule_values verdict ([C04_rule_values_iff], [C04_coercion_agrees]).
+
+    PROVED (partial): the statement for every literal without object values, every type and every
+    environment, given [leaves_agree] (the two models agree on scalar leaves); [leaves_agree] itself
+    for environments whose scalars do not read numbers.
+    NOT PROVED, the exact gap: (a) object literals - C04's [fields_loop] with its accumulators
+    against C05's three conjuncts; (b) [leaves_agree] for Int / Float / ID, i.e. that C04's
+    [Literals.int_lit] / [float_lit_ok] read [dec_of_Z] back and that its ParseFloat range test
+    is C05's [f64_of_decimal <> None]; (c) the document level (C04's TypeInfo expected types for a
+    C05 request, the arguments and variables rule groups against the other conjuncts of
+    [static_ok]).  (a), (b) and the verdict on every argument literal and default value are
+    evaluated on every case by the check ([bridge_agrees]; 0 disagreements, class
+    c04-bridge-evaluated); (c) is tied only through the real validator, which both models are
+    compared with. *)
+Theorem C05_C04_coercion_bridge_partial : forall E dt, leaves_agree E dt ->
+  forall l, obj_free l = true -> forall t a,
+  match ValidatorModel.coercion ValidatorModel.repaired ValidatorModel.id_order (tr_env E) (tr_lit l) (tr_sty t) a with
+  | ValidatorModel.VR [] => true
+  | _ => false
+  end = validate_coercion E dt l t a.
+Proof. exact bridge_obj_free. Qed.
+
+Theorem C05_C04_coercion_bridge_non_numeric_partial : forall E dt l, non_numeric E = true -> obj_free l = true ->
+  forall t a, c04_accepts E l t a = validate_coercion E dt l t a.
+Proof. exact bridge_obj_free_non_numeric. Qed.
+
 (** the repaired defects: the same statements are false of the code as found *)
 Theorem C05_args_conform_refuted_before_fix :
   exists argdefs defs args raw m,
@@ -333,6 +369,8 @@ Print Assumptions C05_argument_values_complete.
 Print Assumptions C05_variable_values_complete.
 Print Assumptions C05_absent_item_variable_is_error.
 Print Assumptions C05_served_unless_runtime_reason.
+Print Assumptions C05_C04_coercion_bridge_partial.
+Print Assumptions C05_C04_coercion_bridge_non_numeric_partial.
 Print Assumptions C05_route_independent.
 Print Assumptions C05_integer_literal_is_exact_float.
 Print Assumptions C05_validator_types_differ_in_non_null_only.
